@@ -15,6 +15,7 @@ import (
 	"sort"
 	"strconv"
 	"strings"
+	"sync/atomic"
 	"time"
 
 	"github.com/blinklabs-io/gouroboros/connection"
@@ -22,6 +23,27 @@ import (
 	"github.com/blinklabs-io/gouroboros/protocol"
 	"github.com/blinklabs-io/gouroboros/protocol/handshake"
 )
+
+// Deadlines. Every verdict of these harnesses is an event (FinishedFunc, an error on a channel,
+// a segment read); a deadline only stands for "the event never comes". It must be far beyond
+// anything a loaded machine needs (load averages of 200+ were seen), but a defect that makes the
+// event never come (e.g. a refusal that is never written) would then cost that long for every
+// op. So the first few expiries of a run wait the long deadline; once a run has seen
+// g2LongWaits of them the verdict is already a violation and later ops wait only briefly.
+const g2LongDeadline = 45 * time.Second
+const g2ShortDeadline = 3 * time.Second
+const g2LongWaits = 4
+
+var g2Expired atomic.Int32
+
+func g2Deadline() time.Duration {
+	if g2Expired.Load() >= g2LongWaits {
+		return g2ShortDeadline
+	}
+	return g2LongDeadline
+}
+
+func g2NoteExpired() { g2Expired.Add(1) }
 
 var g2Logger = slog.New(slog.NewJSONHandler(io.Discard, nil))
 
@@ -195,7 +217,7 @@ func (r g2HsResult) String() string {
 // with the given version map and waits for FinishedFunc or an error. The
 // caller must call stop() when the peer is done too (stopping earlier could
 // cut off a message that is still queued for sending).
-func g2RunHandshake(conn net.Conn, server bool, mode protocol.ProtocolMode, vm protocol.ProtocolVersionMap, wait time.Duration) (res g2HsResult, stop func()) {
+func g2RunHandshake(conn net.Conn, server bool, mode protocol.ProtocolMode, vm protocol.ProtocolVersionMap) (res g2HsResult, stop func()) {
 	mx := muxer.New(conn)
 	stop = mx.Stop
 	errCh := make(chan error, 10)
@@ -242,7 +264,8 @@ func g2RunHandshake(conn net.Conn, server bool, mode protocol.ProtocolMode, vm p
 			err = errors.New("muxer closed")
 		}
 		return g2HsResult{kind: "error", err: fmt.Errorf("muxer: %w", err)}, stop
-	case <-time.After(wait):
+	case <-time.After(g2Deadline()):
+		g2NoteExpired()
 		return g2HsResult{kind: "timeout"}, stop
 	}
 }
